@@ -22,6 +22,7 @@
 // / links / parent / sampler instance / earlier calls / the last 8 id bytes), an exact integer reference threshold
 // floor(ratio*2^64) with a tolerance band for the floating-point computation (two-sided: inside the
 // band either answer is accepted), a call-counting delegate for ParentBased.
+#include <atomic>
 #include <cmath>
 #include <cstdint>
 #include <cstdio>
@@ -1987,21 +1988,35 @@ VH_TARGET(shared_threads, 6,
   if (c.nontrivial)
     c.tag("mixed-answers");
 
+  // The threads are released together and each asks every question of a round 1..3 times IN A ROW (a participant
+  // re-asking about the trace it just asked about, while another participant asks about another trace), for
+  // 150 x the generated number of rounds: a sampler that remembers anything about "the previous question" in state
+  // shared between threads gets every chance to hand one participant another participant's answer.  (Seeded
+  // C12-m9: a one-entry memo published as two separate atomics - invisible to TSan - was missed with 1..8 rounds.)
+  const unsigned kRoundFactor = 150;
+  std::atomic<unsigned> ready{0};
   std::vector<std::string> errors(nt);
   std::vector<std::thread> ths;
   for (unsigned k = 0; k < nt; ++k)
     ths.emplace_back([&, k]() {
-      for (unsigned r = 0; r < rounds && errors[k].empty(); ++r)
-        for (size_t i = 0; i < qs.size(); ++i)
+      ready.fetch_add(1);
+      while (ready.load() < nt)
+      {
+      }
+      for (unsigned r = 0; r < rounds * kRoundFactor && errors[k].empty(); ++r)
+        for (size_t i = 0; i < qs.size() && errors[k].empty(); ++i)
         {
           const Question &q = qs[(start[k] + i * stride[k]) % qs.size()];
-          bool got          = call(*shared, q.parent, q.id, plain).IsSampled();
-          if (got != q.want)
+          for (unsigned rep = 0; rep <= (i + r + k) % 3; ++rep)
           {
-            errors[k] = "thread " + std::to_string(k) + ", round " + std::to_string(r) + ": trace id " +
-                        show_id(q.id) + " is " + (got ? "sampled" : "dropped") + " on the shared " + sp.text +
-                        " but " + (q.want ? "sampled" : "dropped") + " when asked single-threaded";
-            break;
+            bool got = call(*shared, q.parent, q.id, plain).IsSampled();
+            if (got != q.want)
+            {
+              errors[k] = "thread " + std::to_string(k) + ", round " + std::to_string(r) + ": trace id " +
+                          show_id(q.id) + " is " + (got ? "sampled" : "dropped") + " on the shared " + sp.text +
+                          " but " + (q.want ? "sampled" : "dropped") + " when asked single-threaded";
+              break;
+            }
           }
         }
     });
